@@ -616,7 +616,7 @@ Proof.
   - vm_compute. repeat split; reflexivity.
 Qed.
 
-(* F17: a starred unknown name goes unnoticed when the same name came first without a star *)
+(* finding C11-shadowed-star: a starred unknown name goes unnoticed when the same name came first without a star *)
 Theorem refuted_shadowed_star :
   exists m u s,
     starts_star (wv s) = true /\ mems (key s) (keys m) = false
